@@ -290,6 +290,7 @@ func genC07(c *Ctx) {
 	if c.Thorough() {
 		cap = 4000
 	}
+	renegotiations(c)
 	type action func(s *Sys)
 	type config struct {
 		name    string
